@@ -735,7 +735,7 @@ def noncoding_twins(case: Case, rng: random.Random, frac: float = 0.7) -> List[s
     return twins
 
 
-INVALID_KINDS = ('beyond-gene-end', 'other-gene', 'unknown-gene')
+INVALID_KINDS = ('beyond-gene-end', 'other-gene', 'unknown-gene', 'straddles-transcript-end')
 
 
 def invalid_record(anno, tx_id: str, kind: str, rng: random.Random):
@@ -759,6 +759,26 @@ def invalid_record(anno, tx_id: str, kind: str, rng: random.Random):
         start = rng.randrange(max(1, len(anno.genes[seqname].location)))
     elif kind == 'unknown-gene':
         seqname, start = 'FAKEG99999999', rng.randrange(glen)
+    elif kind == 'straddles-transcript-end':
+        # a deletion whose REF starts inside the last exon, 1-3 bases before the transcript's 3'
+        # end, and runs 1-4 bases past it: one end on the transcript, the other outside of it
+        gm = anno.genes[gene_id]
+        strand = tx_model.transcript.strand
+        if strand == 1:
+            last = int(tx_model.transcript.location.end) - 1 - int(gm.location.start)
+        else:
+            last = int(gm.location.end) - 1 - int(tx_model.transcript.location.start)
+        start = last - rng.randint(1, 3)
+        n = (last - start + 1) + rng.randint(1, 4)
+        if start < 1:
+            return None
+        ref = ''.join(rng.choice('ACGT') for _ in range(n))
+        chrom = tx_model.transcript.chrom
+        return VariantRecord(
+            location=FeatureLocation(start=start, end=start + n, seqname=gene_id),
+            ref=ref, alt=ref[0], _type='INDEL', _id=f'{gene_id}-{start}-{ref}-{ref[0]}',
+            attrs={'TRANSCRIPT_ID': tx_id, 'GENOMIC_POSITION': f'{chrom}-{start}:{start + n}',
+                   'GENE_SYMBOL': 'BAD'})
     else:
         raise KeyError(kind)
     ref = rng.choice('ACGT')
